@@ -50,9 +50,9 @@ pub fn positions(layout: Layout, tier: &str) -> Vec<u64> {
 }
 pub fn lengths(tier: &str) -> Vec<usize> {
     if tier == "thorough" {
-        vec![1, 2, 31, 63, 64, 65, 127, 128, 129, 191, 192, 193, 255, 256, 257, 319, 320, 321, 511, 512, 513, 1031]
+        vec![1, 2, 31, 63, 64, 65, 127, 128, 129, 191, 192, 193, 255, 256, 257, 319, 320, 321, 511, 512, 513, 1031, 2048, 4099, 65543]
     } else {
-        vec![1, 63, 64, 65, 255, 256, 257, 320, 513, 1031]
+        vec![1, 63, 64, 65, 255, 256, 257, 320, 513, 1031, 2048, 4099, 65543]
     }
 }
 
